@@ -4,11 +4,13 @@
 cd "$(dirname "$0")/.."
 SRC=${1:-/tmp/mut_out}; shift
 mkdir -p build/seed_results
-for d in "$SRC"/C*/[ab]; do
+LIST=$(ls -d "$SRC"/C*/[ab]); [ -n "${REVERSE:-}" ] && LIST=$(echo "$LIST" | tac)
+for d in $LIST; do
   id=$(basename $(dirname $d)); v=$(basename $d); name=${id}_$v
   [ -f "$d/patch.diff" ] && [ -f "$d/demo.py" ] && [ -f "$d/notes.md" ] || continue
-  [ -s build/seed_results/$name.json ] && continue
-  timeout 3600 python3 tools/try_seed.py "$d" $id --slot=seed "$@" > build/seed_results/$name.json 2> build/seed_results/$name.err
+  [ -e build/seed_results/$name.json ] && continue
+  touch build/seed_results/$name.json
+  timeout 3600 python3 tools/try_seed.py "$d" $id --slot=${SLOT:-seed} "$@" > build/seed_results/$name.json 2> build/seed_results/$name.err
   python3 - "$name" <<'PY'
 import json,sys
 n=sys.argv[1]
